@@ -107,7 +107,8 @@ class C01(Prop):
             "(a) every ordered pair of the 19 operator forms (11 binary, ternary, 2 prefix, 2 postfix, index, property, "
             "call) in every operand slot; (b) triples: all chains and forks (thorough) or a seeded sample (quick); "
             "(c) random typed trees to depth 5; (d) the same trees as the right-hand side of an assignment; "
-            "(e) integer boundary operands and out-of-range literals. Non-trivial: at least two operators; "
+            "(e) integer boundary operands and out-of-range literals; (f) every operator on every ordered pair of IEEE-754 "
+            "special values (NaN, +-Inf, -0.0, smallest subnormal, largest finite, 0.0/0.0, 1.5/0.0). Non-trivial: at least two operators; "
             "distinct = distinct rendered source + data.")
     explanation = ("Theorems: Go's binding-power table read from parser.go is a strictly monotone image of the "
                    "property's levels; the Pratt parser model parses the printer's output back to the tree "
@@ -126,7 +127,12 @@ class C01(Prop):
         "s": "(str %s)" % hx("ab"), "t": "(str %s)" % hx(""), "b": "(bool 1)", "c": "(bool 0)", "n": "(nil)",
         "a": "(slice (int 5) (int 6) (int 7))", "e": "(slice)",
         "o": "(map (%s (int 4)) (%s (str %s)))" % (hx("k"), hx("Name"), hx("bob")),
+        # IEEE-754 special values
+        "nan": "(f64 7ff8000000000000)", "inf": "(f64 7ff0000000000000)", "ninf": "(f64 fff0000000000000)",
+        "nz": "(f64 8000000000000000)", "tiny": "(f64 0000000000000001)", "huge": "(f64 7fefffffffffffff)",
     }
+    SPECIAL = ["(var nan)", "(var inf)", "(var ninf)", "(var nz)", "(float 0 1)", "(var f)", "(var huge)", "(var tiny)",
+               "(bin div (float 0 1) (float 0 1))", "(bin div (float 15 1) (float 0 1))", "(neg (float 0 1))"]
 
     def data(self):
         return "(" + " ".join("(%s %s)" % (hx(k), v) for k, v in self.DATA.items()) + ")"
@@ -181,7 +187,8 @@ class C01(Prop):
         if d <= 0 or r < 0.25:
             return {"int": rng.choice(["(int 7)", "(int 2)", "(int 3)", "(int 0)", "(int 1)", "(var x)", "(var y)", "(var big)",
                                        "(var small)", "(int 9223372036854775807)", "(var w)"]),
-                    "float": rng.choice(["(float 15 1)", "(float 25 2)", "(float 20 1)", "(var f)", "(var g)", "(var h)", "(float 5 1)"]),
+                    "float": rng.choice(["(float 15 1)", "(float 25 2)", "(float 20 1)", "(var f)", "(var g)", "(var h)", "(float 5 1)"]
+                                        + (self.SPECIAL if rng.random() < 0.15 else [])),
                     "str": rng.choice(["(str %s 1)" % hx("a<b"), "(str %s 0)" % hx("it's"), "(var s)", "(var t)", "(str %s 1)" % hx("q\"x"),
                                        "(str - 1)", "(str %s 0)" % hx("h\xc3\xa9&"), ]),
                     "bool": rng.choice(["(bool 1)", "(bool 0)", "(var b)", "(var c)", "(nil)", "(var n)"]),
@@ -205,7 +212,7 @@ class C01(Prop):
         if ty == "float":
             k = rng.random()
             if k < 0.6:
-                return "(bin %s %s %s)" % (rng.choice(["add", "sub", "mul"]), sub("float"), sub("float"))
+                return "(bin %s %s %s)" % (rng.choice(["add", "sub", "mul", "add", "sub", "mul", "div"]), sub("float"), sub("float"))
             if k < 0.7:
                 return "(neg %s)" % sub("float")
             if k < 0.8:
@@ -271,6 +278,15 @@ class C01(Prop):
             for a in ["(var big)", "(var small)", "(int 9223372036854775807)", "(neg (int 1))", "(int 0)"]:
                 for b in ["(var big)", "(var small)", "(neg (int 1))", "(int 0)", "(int 2)"]:
                     trees.append("(bin %s %s %s)" % (op, a, b))
+        # IEEE-754 special values: every comparison and arithmetic operator on every ordered pair
+        for op in self.BIN:
+            if op == "mod":
+                continue
+            for a in self.SPECIAL:
+                for b in self.SPECIAL:
+                    trees.append("(bin %s %s %s)" % (op, a, b))
+        for a in self.SPECIAL:
+            trees += ["(tern %s (int 1) (int 2))" % a, "(neg %s)" % a, "(inc %s)" % a]
         trees += ["(int 9223372036854775808)", "(neg (int 9223372036854775808))", "(int 99999999999999999999)",
                   "(bin add (int 1) (int 9223372036854775808))"]
         lines = []
@@ -613,7 +629,7 @@ class C09(Prop):
             body = self.block(rng, d + 1)
             if cond in ("", "nil") or post in ("", "i--", "j++") or init in ("", "j = 1"):
                 body += rng.choice(["@break", "@breakIf(true)"])
-            return "@for(" + init + "; " + cond + "; " + post + ")" + body + "@end"
+            return "@for(" + init + "; " + cond + "; " + post + ")" + body + rng.choice(["", "", "@else" + self.block(rng, d + 1)]) + "@end"
         if r < 0.93:
             return rng.choice(["@break", "@continue", "@breakIf(" + self.expr(rng) + ")", "@continueIf(" + self.expr(rng) + ")",
                                "{{ loop.index }}", "{{ loop.zz }}", "{{ v }}"])
@@ -651,6 +667,16 @@ class C09(Prop):
                     for b in self.boundary(ty, recv):
                         srcs.append("{{ %s.%s(%s) }}" % (recv, fn, b))
                         srcs.append("{{ %s.%s(%s, %s) }}" % (recv, fn, rng.choice(['"."', "1", "0"]), b))
+        # every combination of absent @for clauses, with and without @else
+        for init in ["i = 0", ""]:
+            for cond in ["i < 2", "", "false"]:
+                for post in ["i++", ""]:
+                    for els in ["", "@else none"]:
+                        for brk in ["@break", "@breakIf(true)", "{{ i }}@breakIf(i == 1)"]:
+                            if init == "" and "i" in cond + post + brk:
+                                srcs.append("{{ i = 0 }}@for(%s; %s; %s)x%s%s@end" % (init, cond, post, brk, els))
+                            else:
+                                srcs.append("@for(%s; %s; %s)x%s%s@end" % (init, cond, post, brk, els))
         # regression corpus (fixed: e92c1d0)
         srcs.append('{{ "ab".repeat(9223372036854775807) }}')
         srcs.append('{{ 1.decimal(".", 9223372036854775807) }}')
@@ -1355,7 +1381,11 @@ class C13(Prop):
     MULTI = [("{{ ob.nope9(\n  1,\n  2\n) }}", "eval", 0), ("{{ 1 +\n 'str' }}", "eval", 0), ("{{\n zz9 }}", "eval", 1), ("{{ zz9\n }}", "eval", 0),
              ("{{ ob\n.nope }}", "eval", 1), ("{{ ob[\n'nope'\n] }}", "eval", 1), ("{{ 1 /\n 0 }}", "eval", 0), ("{{ 'a'.nofunc(\n) }}", "eval", 0),
              ("@if(\nzz9\n)x@end", "eval", 1), ("{{ [1,\n 2].nope9(\n3) }}", "eval", 1), ("{{ 'a\nb'.nope9() }}", "eval", 1),
-             ("{{ 1 +\n ) }}", "parse", 1), ("{{ 'x'.len(\n1,\n 2).nope9(\n) }}", "eval", 2), ("{{ true ?\n zz9 :\n 1 }}", "eval", 1)]
+             ("{{ 1 +\n ) }}", "parse", 1), ("{{ 'x'.len(\n1,\n 2).nope9(\n) }}", "eval", 2), ("{{ true ?\n zz9 :\n 1 }}", "eval", 1),
+             # an unexpected token on a later line than the token before it: the line is the unexpected token's
+             ("{{ {a: 1\n b: 2} }}", "parse", 1), ("{{ [1, 2\n\n }}", "parse", 2), ("{{ 'a'.len(1\n }}", "parse", 1),
+             ("{{ true ? 1\n }}", "parse", 1), ("{{ (1 + 2\n\n\n }}", "parse", 3), ("@if(true\n x@end", "parse", 1),
+             ("@each(q in [1]\n\n x@end", "parse", 2), ("{{ ob[1\n }}", "parse", 1), ("@component('c', {a: 1\n b: 2})", "parse", 1)]
     DATA = "((%s (map (%s (int 1)))))" % (hx("ob"), hx("k"))
 
     def build(self, rng):
@@ -1609,24 +1639,57 @@ class C17(Prop):
 
     MARK = "PARTIAL-OUTPUT-7731"
 
-    def page(self, rng, fail_at):
+    FAULTS = ["{{ secretvar }}", "{{ 1 + 'secretmsg' }}", "{{ n.secretfn() }}", "{{ user.secretprop }}", "{{ n / secretzero }}"]
+    FAULT_EXPRS = ["secretvar", "1 + 'secretmsg'", "n.secretfn()", "user.secretprop", "n / secretzero"]
+
+    def page(self, rng, fail_at, shape="plain"):
+        """returns the files of a tree whose page 'pg' fails (fail_at is not None) at a statement position or inside the
+        construct named by shape: the page itself, a layout insert (argument or block form), a component argument, a
+        component body, a slot body, or nested blocks"""
         stmts = ["<h1>{{ name }}</h1>", "@if(flag)%s@end" % self.MARK, "@each(i in items){{ i }}% @end", "<p>%s {{ n }}</p>" % self.MARK,
                  "<div style='width: 100%'>50%d done %s %v %!</div>", "end"]
-        if fail_at is not None:
-            fault = rng.choice(["{{ secretvar }}", "{{ 1 + 'secretmsg' }}", "{{ n.secretfn() }}", "{{ user.secretprop }}", "{{ n / secretzero }}"])
-            stmts.insert(fail_at, fault)
-        return self.MARK + "\n" + "\n".join(stmts)
+        files = []
+        fault = rng.choice(self.FAULTS) if fail_at is not None else "fine"
+        fexpr = rng.choice(self.FAULT_EXPRS) if fail_at is not None else "name"
+        if shape == "plain":
+            if fail_at is not None:
+                stmts.insert(fail_at, fault)
+            body = self.MARK + "\n" + "\n".join(stmts)
+        elif shape == "nested":
+            if fail_at is not None:
+                stmts.insert(fail_at, "@if(flag)@each(i in items)%s@if(i == 2)%s@end@end@end" % (self.MARK, fault))
+            body = self.MARK + "\n" + "\n".join(stmts)
+        elif shape in ("layout-arg", "layout-block"):
+            files.append(("tpl/layouts/lay.tw", "file", "<html>%s<title>@reserve('title')</title>%s<body>@reserve('body')</body>%s</html>" % (self.MARK, self.MARK, self.MARK)))
+            ins = "@insert('title', %s)" % fexpr if shape == "layout-arg" else "@insert('title')t %s %s@end" % (self.MARK, fault)
+            body = "@use('~lay')" + ins + "@insert('body')" + "\n".join(stmts) + "@end"
+        elif shape == "component-arg":
+            files.append(("tpl/components/card.tw", "file", "<div>%s{{ title }}@slot</div>" % self.MARK))
+            stmts.insert(fail_at if fail_at is not None else 0, "@component('~card', {title: %s})@slot x@end@end" % fexpr)
+            body = self.MARK + "\n" + "\n".join(stmts)
+        elif shape == "component-body":
+            files.append(("tpl/components/card.tw", "file", "<div>%s{{ title }}%s@slot</div>" % (self.MARK, fault)))
+            stmts.insert(fail_at if fail_at is not None else 0, "@component('~card', {title: name})@slot x@end@end")
+            body = self.MARK + "\n" + "\n".join(stmts)
+        else:  # slot-body
+            files.append(("tpl/components/card.tw", "file", "<div>%s{{ title }}@slot</div>" % self.MARK))
+            stmts.insert(fail_at if fail_at is not None else 0, "@component('~card', {title: name})@slot x %s@end@end" % fault)
+            body = self.MARK + "\n" + "\n".join(stmts)
+        return [("tpl/pg.tw", "file", body)] + files
+
+    SHAPES = ["plain", "plain", "nested", "layout-arg", "layout-block", "component-arg", "component-body", "slot-body"]
 
     def generate(self, rng, tier):
         lines = []
-        reps = {"quick": 6, "thorough": 60, "search": 10}[tier]
+        reps = {"quick": 8, "thorough": 60, "search": 12}[tier]
         i = 0
         for debug in (0, 1):
             for custom in ("none", "valid", "missing", "failing"):
                 for outcome in ("ok", "fail", "missing"):
-                    for _ in range(reps):
+                    for rep in range(reps):
                         fail_at = rng.randrange(0, 7) if outcome == "fail" else None
-                        files = [("tpl/pg.tw", "file", self.page(rng, fail_at))]
+                        shape = self.SHAPES[rep % len(self.SHAPES)]
+                        files = self.page(rng, fail_at, shape)
                         errpage = ""
                         if custom == "valid":
                             files.append(("tpl/errpg.tw", "file", "<h1>custom error page</h1>"))
@@ -1637,25 +1700,38 @@ class C17(Prop):
                             files.append(("tpl/errpg.tw", "file", "custom {{ undefinedincustom }}"))
                             errpage = "errpg"
                         name = "pg" if outcome != "missing" else "ghost"
-                        ops = [op_new("tpl", ".tw", errpage, debug), op_response(name, TREE_DATA), op_string(name, TREE_DATA)]
-                        cons = ["nopanic", "ok:0"]
+                        # the configuration in force is the LAST one: earlier NewTemplate calls with the other debug
+                        # setting (and another error page) must leave no trace
+                        pre = []
+                        k = rng.random()
+                        if k < 0.25:
+                            pre = [op_new("tpl", ".tw", errpage, 1 - debug)]
+                        elif k < 0.4:
+                            pre = [op_new("tpl", ".tw", errpage, 1 - debug), op_response(name, TREE_DATA)]
+                        elif k < 0.5:
+                            pre = [op_new("tpl", ".tw", errpage, debug), op_new("tpl", ".tw", errpage, 1 - debug)]
+                        b = len(pre)
+                        ops = pre + [op_new("tpl", ".tw", errpage, debug), op_response(name, TREE_DATA), op_string(name, TREE_DATA)]
+                        cons = ["nopanic", "ok:%d" % b]
+                        r, st = b + 1, b + 2
                         if outcome == "ok":
-                            cons += ["ok:1", "ok:2", "body:1:" + hx(self.MARK), "bodyout:1:2"]
+                            cons += ["ok:%d" % r, "ok:%d" % st, "body:%d:" % r + hx(self.MARK), "bodyout:%d:%d" % (r, st)]
                         else:
-                            cons += ["err:1", "err:2", "nobody:1:" + hx(self.MARK)]
+                            cons += ["err:%d" % r, "err:%d" % st, "nobody:%d:" % r + hx(self.MARK)]
                             if debug == 0:
-                                cons += ["nobodymsg:1", "nobody:1:" + hx("secret"), "nobody:1:" + hx("$ROOT"), "nobody:1:" + hx("tpl/"),
-                                         "nobody:1:" + hx("template not found")]
+                                cons += ["nobodymsg:%d" % r, "nobody:%d:" % r + hx("secret"), "nobody:%d:" % r + hx("$ROOT"),
+                                         "nobody:%d:" % r + hx("tpl/"), "nobody:%d:" % r + hx("template not found")]
                                 if custom == "valid":
-                                    cons += ["body:1:" + hx("custom error page")]
+                                    cons += ["body:%d:" % r + hx("custom error page")]
                                 elif custom == "none":
-                                    cons += ["body:1:" + hx("Oops!")]
+                                    cons += ["body:%d:" % r + hx("Oops!")]
                             else:
-                                cons += ["body:1:" + hx("$ROOT/tpl/" + name + ".tw"), "body:1:" + hx("Error!")]
-                                cons += ["bodymsg:1"]
+                                cons += ["body:%d:" % r + hx("$ROOT/tpl/"), "body:%d:" % r + hx("Error!")]
+                                cons += ["bodymsg:%d" % r]
                         lines.append(tree_case("C17:%d" % i, files, ops, cons))
                         i += 1
-        return lines, {"exhaustive": True, "distribution": {"combinations": 24, "repetitions": reps}}
+        return lines, {"exhaustive": True, "distribution": {"combinations": 24, "repetitions": reps, "page_shapes": len(set(self.SHAPES)),
+                                                             "with_reconfiguration": sum(1 for l in lines if l.count("286e657720") > 1)}}
 
 
 PROPS["C17"] = C17()
@@ -1870,6 +1946,9 @@ class C11(Prop):
     assumptions = ["case mapping is specified for ASCII only", "float printing is specified on the dyadic class"]
 
     STRS = ["", "abc", "héllo", "日本語テキスト", " pad ", "a,b,,c", "12", "-7", "x", "ab", "ÀÉ"]
+    # first letters whose upper/lower-case form has a different UTF-8 length, or none at all: outside the
+    # specified case mapping, but the result must still be valid UTF-8 and the call must not panic
+    CASE_STRS = ["ıstanbul", "ſtrasse", "ⱥb", "ɐbc", "ɐ", "ɫ", "ßa", "ǆx", "ŉ", "ı", "Ⱥ", "İi", "éa", "ÿ", "ǰ", "ΐ", "ﬁn", "ⓐ", "𐐨x"]
     ARRS = ["(arr)", "(arr (int 1))", "(arr (int 1) (int 2))", "(arr (int 1) (int 2) (int 3))", "(arr (int 1) (int 2) (int 3) (int 4))",
             "(arr (str %s 1) (str %s 1))" % (hx("a"), hx("b")), "(arr (arr (int 1)) (arr))", "(arr (obj (k (int 1))) (nil))", "(var arr3)",
             "(var strs)", "(var empty)"]
@@ -1906,6 +1985,11 @@ class C11(Prop):
                           ("trim", self.sval("a ")), ("trimLeft", self.sval("x")), ("at", "(int 1)"), ("repeat", "(int 2)"),
                           ("truncate", "(int 2)"), ("decimal", self.sval(","))]:
                 cases.append(("xexpr", "(call (call %s %s %s) len)" % (r, fn, a) if fn == "split" else "(call %s %s %s)" % (r, fn, a)))
+        for s in self.CASE_STRS:
+            for fn in ["capitalize", "upper", "lower", "reverse", "len", "first", "last"]:
+                cases.append(("xexpr", "(call %s %s)" % (self.sval(s), fn)))
+            cases.append(("xexpr", "(call (call %s capitalize) len)" % self.sval(s)))
+            cases.append(("xexpr", "(call %s truncate (int 1))" % self.sval(s)))
         for a in self.ARRS:
             for fn in ["len", "reverse", "join", "rand"]:
                 cases.append(("xexpr", "(call %s %s)" % (a, fn)))
@@ -1978,6 +2062,8 @@ class C11(Prop):
                         binascii.unhexlify(h).decode("utf-8")
                     except UnicodeDecodeError:
                         bad.append((r, "valid UTF-8 input gave invalid UTF-8 output"))
+            elif r["impl"].startswith("PANIC") or r["impl"].startswith("CRASH"):
+                bad.append((r, "a built-in call panicked: " + r["impl"][:200]))
         return bad
 
 
@@ -2039,7 +2125,9 @@ class C12(Prop):
             paths.append(("[%d]" % n, ""))      # past the end: nil
             return "(slice %s)" % " ".join(x for x, _, _ in items), paths, all(ok for _, _, ok in items)
         if k < 0.85:
-            keys = rng.sample(["k", "name", "Age", "x1", "é"], rng.choice([1, 2, 3]))
+            # keys that differ only in the case of the first letter live side by side in a Go map: the exact
+            # spelling must win over the capitalised fallback
+            keys = rng.sample(["k", "name", "Age", "x1", "é", "Name", "age", "id", "Id", "ID", "K"], rng.choice([1, 2, 3, 4]))
             items = [(key, self.gen(rng, d - 1)) for key in keys]
             paths = []
             for key, (_, ps, _) in items:
